@@ -52,6 +52,35 @@ func (g *Gen) idiomStmt(o *out, d int) {
 		i := g.name("i")
 		hi := g.n(3, 6, "lvhi")
 		at := g.n(0, hi-1, "lvat")
+		switch form := g.n(0, 4, "lvform"); {
+		case form == 2:
+			// modified only by a tuple assignment from a call
+			g.idiomHelper("idNext", "func idNext(i int) (int, int) { return i * i, i + 2 }\n")
+			sq := g.name("v")
+			o.line("for %s := 0; %s < %d; %s++ {", i, i, hi+4, i)
+			o.line("\tvar %s int", sq)
+			o.line("\t%s, %s = idNext(%s)", sq, i, i)
+			o.line("\tfmt.Println(\"it\", %s, %s)", sq, i)
+			o.line("}")
+			return
+		case form == 3:
+			// modified only through a pointer passed to a function
+			g.idiomHelper("idBump", "func idBump(p *int) { *p += 3 }\n")
+			o.line("for %s := 0; %s < %d; %s++ {", i, i, hi+6, i)
+			o.line("\tfmt.Println(\"ip\", %s)", i)
+			o.line("\tidBump(&%s)", i)
+			o.line("}")
+			return
+		case form == 4:
+			// modified only through a local pointer
+			q := g.name("v")
+			o.line("for %s := 0; %s < %d; %s++ {", i, i, hi+6, i)
+			o.line("\t%s := &%s", q, i)
+			o.line("\t*%s += %d", q, g.n(1, 3, "lvptradd"))
+			o.line("\tfmt.Println(\"iq\", %s)", i)
+			o.line("}")
+			return
+		}
 		if g.coin(50, "lvcont") {
 			o.line("for %s := 0; %s < %d; %s++ {", i, i, hi, i)
 			o.line("\tif %s == %d {", i, at)
